@@ -46,7 +46,8 @@ theorem invalid_rejected (s : Store) (k : Key) (v : Val) (first : Bool) (id : Na
     (hn : (k.name == sPrefix) = false) (hb : s.isBuiltin k = false)
     (hr : resolveId s k = .ok id) (ho : s.heap[id]? = some o) (hv : validate o.kind v = .error e) :
     setOption k v first s = (.error e, s) := by
-  simp [setOption, setOptionCore, Bind.bind, M.bind, M.get, hn, hb, hr, M.pure, getObj, ho, hv, M.ofExcept, M.fail]
+  simp [setOption, setOptionCore, setOptionTail, sanitizeForSet, resolveForSet, Bind.bind, M.bind, M.get, hn, hb, hr,
+    M.pure, getObj, ho, hv, M.ofExcept, M.fail]
 
 /-- the hypotheses of `invalid_rejected` are satisfiable: combo option `opt`, value outside the choices -/
 example : ∃ s k v id o e, (k.name == sPrefix) = false ∧ s.isBuiltin k = false ∧ resolveId s k = .ok id ∧
@@ -214,22 +215,68 @@ theorem buildtype_explicit_wins_on_cmdline :
     btScenario [] [(kBt, sv "release"), (kDbg, sv "true")] = (some (.bool true), some (sv "3")) := by
   decide +kernel
 
-/-- the full statement: inside one source an explicitly given `debug` survives `buildtype`, in either order -/
-def buildtype_unless_explicit_full : Prop :=
-  ∀ pdo : Dict, alast kDbg pdo = some (sv "true") → alast kBt pdo = some (sv "release") →
-    (pdo.map Prod.fst).Nodup → (btScenario pdo []).1 = some (.bool true)
+/-- one source (0 = `project(default_options)`, 1 = machine file, 2 = command line after the real re-ordering)
+holding the given entries in the given textual order -/
+def btFrom (src : Fin 3) (entries : Dict) : Option Val × Option Val :=
+  let s := run (Store.new false) [.initBuiltins,
+    .initTop (if src.val = 0 then entries else []) (if src.val = 2 then reorderCmd entries else [])
+             (if src.val = 1 then entries else [])]
+  ((getValueFor s kDbg).toOption, (getValueFor s kOptim).toOption)
 
-/-- … is false of the code: `default_options: ['debug=true', 'buildtype=release']` ends with `debug=false`
-(F-OPT-BT-ORDER; only the command line is re-ordered) -/
-theorem buildtype_unless_explicit_counterexample : ¬ buildtype_unless_explicit_full := by
-  intro h
-  have := h [(kDbg, sv "true"), (kBt, sv "release")] (by decide) (by decide) (by decide)
-  revert this
+def pair (first : Bool) (a b : Key × Val) : Dict := if first then [a, b] else [b, a]
+
+/-- `buildtype_sets_dependents_unless_explicit`, full statement: in each of the three sources, for every
+`buildtype` of the table, an explicitly given `debug` resp. `optimization` survives the `buildtype` expansion in
+*either* textual order, and the other dependent still follows the table.  (Before the repair of
+`initialize_from_top_level_project_call` this was false for `default_options` and machine files:
+`['debug=true', 'buildtype=release']` ended with `debug=false`.) -/
+def buildtype_unless_explicit_full : Prop :=
+  ∀ row ∈ Tables.defaultDependents, ∀ (src : Fin 3) (explicitFirst : Bool),
+    (∀ dbg : Bool,
+      btFrom src (pair explicitFirst (kDbg, sv (if dbg then "true" else "false")) (kBt, .str row.1)) =
+        (some (.bool dbg), some (.str row.2.1))) ∧
+    (∀ o ∈ ["0", "g", "1", "2", "3", "s", "plain"],
+      btFrom src (pair explicitFirst (kOptim, sv o) (kBt, .str row.1)) = (some (.bool row.2.2), some (sv o)))
+
+theorem buildtype_unless_explicit : buildtype_unless_explicit_full := by
+  unfold buildtype_unless_explicit_full
   decide +kernel
 
-/-- `buildtype_sets_dependents_unless_explicit_partial`: it holds when `buildtype` comes first -/
-theorem buildtype_unless_explicit_partial :
-    (btScenario [(kBt, sv "release"), (kDbg, sv "true")] []).1 = some (.bool true) := by
+/-! ### the same for a subproject: `buildtype` and an explicit dependent at any two of the steps that address
+the subproject (2 own `default_options`, 5 parent `sub:opt`, 6 `subproject(default_options:)`, 7 machine file
+`sub:opt`, 8 command line `sub:opt`), in either textual order when they share a step -/
+
+def kS (n : String) : Key := ⟨n.toList, some "sub".toList, .host⟩
+def kG (n : String) : Key := ⟨n.toList, none, .host⟩
+
+/-- the five dicts `(pdoTop, pdoSub, spcall, mf, cmd)` with `entries` placed at `step` -/
+def atStep (step : Fin 5) (n : String) (v : Val) : Dict × Dict × Dict × Dict × Dict :=
+  match step.val with
+  | 0 => ([], [(kG n, v)], [], [], [])
+  | 1 => ([(kS n, v)], [], [], [], [])
+  | 2 => ([], [], [(kG n, v)], [], [])
+  | 3 => ([], [], [], [(kS n, v)], [])
+  | _ => ([], [], [], [], [(kS n, v)])
+
+def subBt (sb sd : Fin 5) (depFirst : Bool) (dep : String) (dv : Val) : Option Val × Option Val × Option Val :=
+  let a := atStep sd dep dv
+  let b := atStep sb "buildtype" (sv "release")
+  let j (x y : Dict) : Dict := if depFirst then x ++ y else y ++ x
+  let pdoTop := j a.1 b.1
+  let pdoSub := j a.2.1 b.2.1
+  let spcall := j a.2.2.1 b.2.2.1
+  let mf := j a.2.2.2.1 b.2.2.2.1
+  let cmd := reorderCmd (j a.2.2.2.2 b.2.2.2.2)
+  let s := run (Store.new false) [.initBuiltins, .initTop pdoTop cmd mf, .initSub "sub".toList spcall pdoSub cmd mf]
+  ((getValueFor s (kS "buildtype")).toOption, (getValueFor s (kS "debug")).toOption,
+   (getValueFor s (kS "optimization")).toOption)
+
+/-- an explicit `debug` / `optimization` for the subproject wins over the subproject's `buildtype=release`
+for all 25 pairs of steps and both orders (before the repair of `initialize_from_subproject_call` it was lost
+in every one of them, e.g. own `default_options: ['buildtype=release']` with `-Dsub:optimization=1` gave 3) -/
+theorem subproject_buildtype_unless_explicit : ∀ (sb sd : Fin 5) (depFirst : Bool),
+    subBt sb sd depFirst "debug" (sv "true") = (some (sv "release"), some (.bool true), some (sv "3")) ∧
+    subBt sb sd depFirst "optimization" (sv "1") = (some (sv "release"), some (.bool false), some (sv "1")) := by
   decide +kernel
 
 /-- the command-line re-ordering puts `buildtype` first and keeps every binding -/
